@@ -25,6 +25,7 @@ def _setup():
 M = Monitor(
     pid="C20",
     setup=_setup,
+    decoy=True,
     title="Irradiance <-> photon-flux conversion is the physical law and its exact inverse",
     rule=("cases: random spectra (scalar, 1-D, N-D with the wavelength on a random axis), wavelengths "
           "100-2000 nm, prefixes ''/milli/micro/nano, plain arrays and pint quantities (incl. um, mW, uE). "
